@@ -357,6 +357,13 @@ class Interp:
                     return K(len(a0.v))
                 if isinstance(a0, R) and a0.kind in ("list", "dict") and "items" in a0.fields:
                     return K(len(a0.fields["items"]))
+            if fname in ("max", "min") and args and not kwargs:
+                cand = args
+                if len(args) == 1:
+                    seq1 = self.iterate(args[0], st)
+                    cand = seq1 if seq1 is not None else []
+                if cand and all(isinstance(x, K) and isinstance(x.v, (int, float)) and not isinstance(x.v, bool) for x in cand):
+                    return K((max if fname == "max" else min)(x.v for x in cand))
             if fname == "next" and 1 <= len(args) <= 2 and isinstance(e.args[0], ast.Call) and dotted(e.args[0].func) == "iter" and len(e.args[0].args) == 1:
                 seq = self.iterate(self.eval(e.args[0].args[0], st), st)
                 if seq is not None:
